@@ -85,6 +85,8 @@ type Act struct {
 	Units  int      `json:"units,omitempty"`
 	N      int      `json:"n,omitempty"`
 	Cost   int64    `json:"cost,omitempty"`
+	NA     int64    `json:"na,omitempty"`  // renew / refresh: requested allowance (units)
+	NC     int64    `json:"nc,omitempty"`  // renew / refresh: requested collateral (units)
 	Af     string   `json:"af,omitempty"`  // amount class ("ok" | "ovfLast" | "ovfMid" | "tooBig")
 	Raw    []string `json:"raw,omitempty"` // harness-only: the concrete amounts of an amount class (decimal hastings)
 	How    string   `json:"how,omitempty"` // harness-only: abort variant
@@ -121,6 +123,7 @@ type SpecRev struct {
 	Commit []int  `json:"commit"`
 	Ph     int    `json:"ph"`
 	Eh     int    `json:"eh"`
+	Dur    int    `json:"dur"`
 	Rk     string `json:"rk"`
 	Hk     string `json:"hk"`
 }
@@ -182,6 +185,43 @@ type Adapter struct {
 	SpecBase SpecRev
 	Issues   []string // concrete (Go-side) violations found while stepping
 	seenCall int
+	// Olds are the contracts the current one was renewed / refreshed from, frozen at the moment
+	// they were replaced: the host still holds them and nothing may ever change them.
+	Olds      []frozen
+	switching bool
+	Switched  bool // a renewal has just replaced K (the replayer rebases its comparison)
+	// LastRenewal is the new contract handed to Contractor.RenewV2Contract by the last step, if any
+	LastRenewal *types.V2FileContract
+}
+
+type frozen struct {
+	ID    types.FileContractID
+	Rev   types.V2FileContract
+	Roots []types.Hash256
+}
+
+// AuditOthers checks every contract the host still holds besides the current one: its stored
+// roots and revision are exactly what they were when it was replaced, and the roots hash to
+// the Merkle root of that revision.  (One try per contract: a handler may hold its lock.)
+func (a *Adapter) AuditOthers() (problems []string) {
+	for _, o := range a.Olds {
+		rs, unlock, err := a.E.EC.LockV2Contract(o.ID)
+		if err != nil {
+			continue
+		}
+		roots := cloneRoots(rs.Roots)
+		rev := rs.Revision
+		unlock()
+		switch {
+		case proto4.MetaRoot(roots) != rev.FileMerkleRoot || uint64(len(roots))*proto4.SectorSize != rev.Filesize:
+			problems = append(problems, fmt.Sprintf("audit: replaced contract %v: stored roots %v no longer hash to the Merkle root of its committed revision (were %v)", o.ID, a.IDs(roots), a.IDs(o.Roots)))
+		case fmt.Sprint(roots) != fmt.Sprint(o.Roots):
+			problems = append(problems, fmt.Sprintf("audit: replaced contract %v: stored roots changed from %v to %v", o.ID, a.IDs(o.Roots), a.IDs(roots)))
+		case rev.RevisionNumber != o.Rev.RevisionNumber || rev.RenterSignature != o.Rev.RenterSignature || !rev.RenterOutput.Value.Equals(o.Rev.RenterOutput.Value):
+			problems = append(problems, fmt.Sprintf("audit: replaced contract %v: revision changed after it was renewed", o.ID))
+		}
+	}
+	return
 }
 
 func NewAdapter(e *Env, k *Contract) *Adapter {
@@ -406,6 +446,10 @@ func (s *rsession) close(a *Adapter) {
 			s.renew.got = true
 		}
 	}
+	if s.renew != nil && s.no > 0 {
+		a.E.Net.WaitServerDone(s.no, 30*time.Second)
+		a.maybeSwitch()
+	}
 	if !a.E.Net.WaitServerDone(s.no, 30*time.Second) {
 		a.Issues = append(a.Issues, "infra: host handler did not return within 30s after the stream was closed")
 	}
@@ -483,6 +527,7 @@ func (a *Adapter) Step(act Act) (out Outcome, err error) {
 		cs := a.E.Log.Since(mark)
 		out.Calls = callNames(cs)
 		a.checkCommits(cs)
+		a.Issues = append(a.Issues, a.AuditOthers()...)
 	}()
 	switch act.Op {
 	case "Next":
@@ -1125,6 +1170,10 @@ func (a *Adapter) finish(act Act) (out Outcome, err error) {
 // revision transaction built from it is acceptable to consensus.
 func (a *Adapter) checkCommits(cs []Call) {
 	for _, c := range cs {
+		if c.Op == "RenewContract" && c.OK && c.Revision != nil {
+			nc := *c.Revision
+			a.LastRenewal = &nc
+		}
 		if !c.OK || c.Revision == nil || c.ContractID != a.K.ID {
 			continue
 		}
@@ -1269,6 +1318,20 @@ func (a *Adapter) Project(want SpecState, checkBalances bool) (diffs []string, r
 		}
 	}
 	if checkBalances {
+		var names []string
+		for name := range want.Att {
+			names = append(names, name)
+		}
+		got := a.Attachments(names)
+		for _, name := range hx.SortedKeys(want.Att) {
+			w := want.Att[name]
+			if w == nil {
+				w = []string{}
+			}
+			if fmt.Sprint(got[name]) != fmt.Sprint(w) {
+				add("att %s: host has pools %v attached, spec %v", name, got[name], w)
+			}
+		}
 		for name, w := range want.Acct {
 			b, _ := a.E.EC.AccountBalance(a.Acc(name))
 			if n, ok := Scale(b); !ok || n != w {
@@ -1381,6 +1444,24 @@ func (a *Adapter) InstallLedger(want SpecState) error {
 		}
 	}
 	return nil
+}
+
+// Attachments reads the account -> attached pools links of the reference contractor (verif hook
+// testutil/verif_export.go) for the named accounts, as names.
+func (a *Adapter) Attachments(accounts []string) map[string][]string {
+	raw := a.E.EC.VerifAttachedPools()
+	out := map[string][]string{}
+	for _, n := range accounts {
+		out[n] = []string{}
+		for _, p := range raw[a.Acc(n)] {
+			name, ok := a.names[p]
+			if !ok {
+				name = "?"
+			}
+			out[n] = append(out[n], name)
+		}
+	}
+	return out
 }
 
 // SetBase records the baseline for relative comparison: the real revision now corresponds to
